@@ -79,6 +79,12 @@ theorem conj_mul (a b : Q ℝ) : (a.mul b).conj = b.conj.mul a.conj := by
 theorem neg_mul' (a b : Q ℝ) : a.neg.mul b = (a.mul b).neg := by
   ext <;> simp only [Q.mul, Q.neg] <;> ring
 
+theorem mul_neg' (a b : Q ℝ) : a.mul b.neg = (a.mul b).neg := by
+  ext <;> simp only [Q.mul, Q.neg] <;> ring
+
+theorem conj_neg (a : Q ℝ) : a.neg.conj = a.conj.neg := by
+  ext <;> simp only [Q.conj, Q.neg]
+
 theorem normSq_conj (q : Q ℝ) : q.conj.normSq = q.normSq := by
   simp only [Q.normSq, Q.conj]; ring
 
